@@ -223,7 +223,9 @@ class Check(PropertyCheck):
                   "httpstream_hands_over_in_order (in EVERY run of C03's model the SendHttp commands addressed to the "
                   "server are head first and once, data only while streaming, trailers only right before the end, one "
                   "end, an error only after the head — a new invariant J over C03's transitions, Lemmas/C05_C03*.lean), "
-                  "good2_from_httpstream; upstream_bytes_own_stream is the WHOLE-HISTORY form of the conservation: in every "
+                  "good2_from_httpstream, good_from_httpstream (with fresh_iff_nothing_handed_over: a stream has no upstream id and is "
+                  "not queued exactly when nothing was handed over for it) — both hypotheses of Reach2 are now properties of "
+                  "the C03 model; upstream_bytes_own_stream is the WHOLE-HISTORY form of the conservation: in every "
                   "reachable state the DATA bytes on the wire for an upstream id, followed by what is still buffered for it, "
                   "are a prefix of the body data handed over for ITS client stream (all of it while the stream may still send; "
                   "nothing foreign, twice or out of order; no DATA on an id not yet allocated), needing only Good; "
